@@ -131,10 +131,10 @@ void StreamLog::storeException( const common::ExceptionBase& eb)
 void StreamLog::addAttribute( const std::string& attr_name)
 {
 
-   auto  attr_value = mLogMsg.getAttributeValue( attr_name);
+   std::string  attr_value;
 
 
-   if (attr_value.empty())
+   if (!mLogMsg.findAttributeValue( attr_name, attr_value))
       attr_value = Logging::instance().getAttribute( attr_name);
 
    mStrStream << attr_value;
